@@ -219,15 +219,24 @@ def hook_probe(ctx, tries=200):
     out["repaired_model_holds"] = fixed.violation is None
     if not out["model_violation"]:
         return out
-    r = subprocess.run([os.path.join(bindir, "fedstream"), "-probe", "hookrace", "-tries", str(tries)], stdin=subprocess.DEVNULL,
-                       stdout=subprocess.PIPE, stderr=subprocess.PIPE, text=True, timeout=300)
-    if r.returncode != 0:
-        raise vlib.MachineryError("hook race probe failed rc=%s: %s" % (r.returncode, r.stderr[-1000:]))
-    try:
-        o = json.loads(r.stdout.strip().splitlines()[-1])
-    except (ValueError, IndexError):
-        raise vlib.MachineryError("hook race probe printed garbage: %.300s" % r.stdout)
-    out.update({k: o.get(k) for k in ("reproduced", "observed", "tries", "window", "queued", "local")})
+    # the last reference to the topic is given up by UNSUBSCRIBE (OnUnsubscribed) / by the end of the session (OnSessionTerminated)
+    for leaver in ("unsub", "term"):
+        r = subprocess.run([os.path.join(bindir, "fedstream"), "-probe", "hookrace", "-leaver", leaver, "-tries", str(tries)], stdin=subprocess.DEVNULL,
+                           stdout=subprocess.PIPE, stderr=subprocess.PIPE, text=True, timeout=300)
+        if r.returncode != 0:
+            raise vlib.MachineryError("hook race probe failed rc=%s: %s" % (r.returncode, r.stderr[-1000:]))
+        try:
+            o = json.loads(r.stdout.strip().splitlines()[-1])
+        except (ValueError, IndexError):
+            raise vlib.MachineryError("hook race probe printed garbage: %.300s" % r.stdout)
+        out.setdefault("by_hook", {})[leaver] = {k: o.get(k) for k in ("reproduced", "observed", "tries", "window", "queued", "local")}
+        if o.get("reproduced") and o.get("observed") and not out.get("reproduced"):
+            out.update({k: o.get(k) for k in ("reproduced", "observed", "tries", "queued", "local")})
+            out["hook"] = {"unsub": "OnUnsubscribed", "term": "OnSessionTerminated"}[leaver]
+    wins = {v.get("window") for v in out["by_hook"].values()}
+    out["window"] = "closed" if wins == {"closed"} else None
+    if not out.get("reproduced"):
+        out["tries"] = max(v.get("tries") or 0 for v in out["by_hook"].values())
     return out
 
 
